@@ -207,7 +207,7 @@ func (e *Env) RPureDecorate() {
 	}
 	e.Run.OK("R-PURE", "no store to go/ast memory outside the restorer", "", fmt.Sprintf("%d functions scanned", n))
 	e.Run.Analysed("functions scanned for ast stores", n)
-	e.Run.Floor("R-PURE", "functions scanned (decorate side)", n, 60)
+	e.Run.Floor("R-PURE", "functions scanned (decorate side)", n, 40)
 }
 
 // RPureRestore: restore-path functions write dst memory only in updateImports (or into objects
@@ -235,8 +235,8 @@ func (e *Env) RPureRestore() {
 	}
 	e.Run.OK("R-PURE", "no store to dst memory in the restorer outside updateImports", "", fmt.Sprintf("%d restore-path functions scanned, %d stores inside updateImports", n, inUpdate))
 	e.Run.Analysed("restore-path functions scanned for dst stores", n)
-	e.Run.Floor("R-PURE", "restore-path functions", n, 15)
-	e.Run.Floor("R-PURE", "dst stores inside updateImports (positive control)", inUpdate, 10)
+	e.Run.Floor("R-PURE", "restore-path functions", n, 10)
+	e.Run.Floor("R-PURE", "dst stores inside updateImports (positive control)", inUpdate, 5)
 }
 
 // RPureUpdateImports: on the CFG of updateImports no dst store lies on a path that reaches an error
